@@ -1,5 +1,7 @@
 import Tyme.Driver.Util
 import Tyme.Driver.P01
+import Tyme.Driver.P12
+import Tyme.Driver.P03
 -- IMPORTS (one driver module per property group)
 open Tyme.Driver
 
@@ -7,6 +9,8 @@ open Tyme.Driver
 def execOpAll (op : String) (a : List Int) : String :=
   let r : Option (Option String) :=
     (P01.execOp op a)
+    <|> (P03.execOp op a)
+    <|> (P12.execOp op a)
     -- DISPATCH-EXEC   <|> (Pxx.execOp op a)
   match r with
   | none => "bad-op"
@@ -16,6 +20,8 @@ def execOpAll (op : String) (a : List Int) : String :=
 def specOpAll (op : String) (a : List Int) : String :=
   let r : Option (Option String) :=
     (P01.specOp op a)
+    <|> (P03.specOp op a)
+    <|> (P12.specOp op a)
     -- DISPATCH-SPEC   <|> (Pxx.specOp op a)
   match r with
   | none => "n/a"
@@ -24,6 +30,8 @@ def specOpAll (op : String) (a : List Int) : String :=
 
 def runEnumAll (name : String) (args : List String) (out : IO.FS.Stream) : Option (IO Unit) :=
   (P01.runEnum name args out)
+  <|> (P03.runEnum name args out)
+  <|> (P12.runEnum name args out)
   -- DISPATCH-ENUM   <|> (Pxx.runEnum name args out)
 
 def lineWith (f : String → List Int → String) (line : String) : String :=
